@@ -21,7 +21,7 @@ ENTRY = {'title': 'Payload decoding conforms to the ecoNET wire layout for every
                'for payloads whose counts fit (`canonical_*`). Device level (`Model/DeviceData.lean`): what EcoMAX.handle_frame leaves in '
                'device.data and the sub-devices — `thermostat_count_plumbed` (sensor frame with T slots, then thermostat parameters laid out for T '
                'decode with T), `schema_then_data`, `later_schema_replaces`, `frame_versions_same_layout`; truncated sensor payloads characterised '
-               'exactly (`decode_total`, `short_payload_errors`, `short_payload_tail_ok`). Names, constants and tables are regenerated from the '
+               'exactly (`short_payload_errors`, `short_payload_tail_ok`). Names, constants and tables are regenerated from the '
                'source on every run and pinned by `decide` lemmas. Tie: abstract messages generated in Python, ENCODED BY THE LEAN DRIVER, decoded '
                'by the real frames (with and without an owning device), compared with valOf; truncations / mutations / noise compared '
                'value-or-error; purity checked by repeated decodes.',
@@ -36,7 +36,7 @@ ENTRY = {'title': 'Payload decoding conforms to the ecoNET wire layout for every
              'schedules, alerts, UID, password': 'theorem (rt_schedules, rt_alerts, rt_uid, rt_password)',
              'names / constants / tables': 'table (translator + decide lemmas)',
              'decoding is pure and repeatable': 'definitional in the model + correspondence (decode twice, fresh frame, payload bytes unchanged)',
-             'truncated sensor-data payloads: exactly which strict prefixes are errors': 'theorem (decode_total, short_payload_errors, '
+             'truncated sensor-data payloads: exactly which strict prefixes are errors': 'theorem (short_payload_errors, '
                                                                                          'short_payload_tail_ok) + correspondence (every truncation '
                                                                                          "of sampled messages judged by the theorem's bound)",
              'device level: sensors -> one event per name, mixer / thermostat sub-devices, thermostat count plumbed to the thermostat-parameters decoder': 'theorem '
